@@ -44,7 +44,7 @@ def r1(ctx):
     for side in ("Bids", "Asks"):
         ctor = ctx.find(name=side.lower(), self_adt=OBS, self_ty_contains="books::" + side, trait="")
         ups = ctx.find(name="upsert", self_adt=OBS, self_ty_contains="books::" + side, trait="")
-        cb = ctx.body(ctor)
+        cb = ctx.ibody(ctor)
         sorts = [(bi, t, tm) for bi, t, tm in cb.real_calls() if mir._strip_generics(tm[1]).rsplit("::", 1)[-1].startswith("sort")]
         ok = len(sorts) == 1 and sorts[0][2][2][-1][0] == "agg"
         ctx.check("OrderBookSide<%s>::%s" % (side, side.lower()), ok, "the constructor sorts the levels once with a comparator",
@@ -65,22 +65,19 @@ def r1(ctx):
             rt = cb.return_term()
             ctx.check("OrderBookSide<%s>::%s" % (side, side.lower()), rt[0] == "agg" and render(dict(zip(rt[2], rt[3])).get("levels")) ==
                       render(sorts[0][2][2][0]), "the stored levels are the sorted vector", got=render(rt)[:200], key="stores-sorted")
-        ub = ctx.body(ups)
-        fe = [(bi, t, tm) for bi, t, tm in ub.real_calls() if tm[1].endswith("Iterator::for_each")]
-        ok = len(fe) == 1 and render(fe[0][2][2][0]) == "levels" and fe[0][2][2][1][0] == "agg"
-        ctx.check("OrderBookSide<%s>::upsert" % side, ok, "every level of the update is visited (for_each over the argument)",
-                  got=[render(x[2])[:160] for x in fe], key="visits-all")
-        if not ok:
-            continue
-        inner, caps = mir.closure_body(ctx.facts, fe[0][2][2][1])
-        us = [(bi, t, tm) for bi, t, tm in inner.real_calls() if mir.short(tm[1]) == "OrderBookSide::upsert_single"]
-        ok = len(us) == 1 and inner.guard(us[0][0]) == frozenset([frozenset()])
-        ctx.check("OrderBookSide<%s>::upsert" % side, ok, "each visited level is upserted exactly once", got=len(us), key="upsert-each")
+        ub = ctx.ibody(ups)
+        # idiom-independent (inlined view): one loop over the argument; in its body exactly one upsert_single, for every element
+        us = [(bi, t, tm) for bi, t, tm in ub.real_calls() if mir.short(tm[1]) == "OrderBookSide::upsert_single"]
+        nx = "Iterator::next(levels)"
+        ok = len(us) == 1 and common.canon_guard(ub.guard(us[0][0])) == "(%s is Some)" % nx
+        ctx.check("OrderBookSide<%s>::upsert" % side, ok, "every level of the update is visited and upserted exactly once (loop over the "
+                  "argument, no condition other than the iteration itself)", got=[(render(x[2])[:120], common.canon_guard(ub.guard(x[0]))[:120]) for x in us],
+                  key="visits-all")
         if not ok:
             continue
         call = us[0][2]
         lvl = call[2][1]
-        ctx.check("OrderBookSide<%s>::upsert" % side, render(call[2][0]) in ("^*self", "^self") and render(lvl) == "Into::into($1)",
+        ctx.check("OrderBookSide<%s>::upsert" % side, render(call[2][0]) == "self" and render(lvl) == "Into::into(%s.as:Some.0)" % nx,
                   "into this side's own levels, with the visited level", got=render(call)[:200], key="receiver")
         cmpc, _ = mir.closure_body(ctx.facts, call[2][2])
         crt = mir.in_closure(ctx.facts, call[2][2], cmpc.return_term())
@@ -102,7 +99,7 @@ def r1(ctx):
 
 
 def r2(ctx):
-    b = ctx.fbody(name="upsert_single", self_adt=OBS, trait="")
+    b = ctx.fibody(name="upsert_single", self_adt=OBS, trait="")
     bs = [(bi, t, tm) for bi, t, tm in b.real_calls() if tm[1].endswith("binary_search_by")]
     ok = len(bs) == 1 and [render(a) for a in bs[0][2][2]] == ["self.levels", "fn_ord"]
     ctx.check("OrderBookSide::upsert_single", ok, "one binary search of self.levels with the given comparator", got=[render(x[2]) for x in bs], key="search")
@@ -168,7 +165,7 @@ def r3(ctx):
               got=bad, sites=[x[2] for x in bad], key="writers")
     ctx.floor("writers of OrderBookSide.levels", n, 3)
     # levels() hands out a shared slice
-    lv = ctx.fbody(name="levels", self_adt=OBS, trait="")
+    lv = ctx.fibody(name="levels", self_adt=OBS, trait="")
     ctx.check("OrderBookSide::levels", lv.locals[0]["ty"].startswith("&") and not lv.locals[0]["ty"].startswith("&mut"),
               "read access only", got=lv.locals[0]["ty"], key="shared")
     bad = []
@@ -183,7 +180,7 @@ def r3(ctx):
 
 
 def r4(ctx):
-    b = ctx.fbody(name="update", self_adt=OB, trait="")
+    b = ctx.fibody(name="update", self_adt=OB, trait="")
     st = {(render(s[2]), render(s[3]), render_guard(b.guard(s[0]))) for s in b.stores()}
     want = {("self", "event.as:Snapshot.0", "(event is Snapshot)"),
             ("self.sequence", "event.as:Update.0.sequence", "(event is Update)"),
@@ -195,7 +192,7 @@ def r4(ctx):
              ("OrderBook::upsert_asks", ("self", "event.as:Update.0.asks"), "(event is Update)")}
     ctx.check("OrderBook::update", cs == wantc, "bids go to the bid side and asks to the ask side", got=sorted(cs), want=sorted(wantc), key="upserts")
     for fn, fld, side in (("upsert_bids", "bids", "Bids"), ("upsert_asks", "asks", "Asks")):
-        ub = ctx.fbody(name=fn, self_adt=OB, trait="")
+        ub = ctx.fibody(name=fn, self_adt=OB, trait="")
         c = ub.real_calls()
         ok = len(c) == 1 and c[0][2][1].endswith("::upsert") and ("books::%s>" % side) in c[0][2][1] and \
             [render(a) for a in c[0][2][2]] == ["self." + fld, "update.levels"]
@@ -206,7 +203,7 @@ def r4(ctx):
 def r5(ctx):
     for fn, leaf, leaf_args in (("mid_price", "books::mid_price", ("price", "price")),
                                 ("volume_weighed_mid_price", "books::volume_weighted_mid_price", ("", ""))):
-        b = ctx.fbody(name=fn, self_adt=OB, trait="")
+        b = ctx.fibody(name=fn, self_adt=OB, trait="")
         tab = {}
         for g, term, bi in b.expanded_cases(0):
             if len(g) != 1:
@@ -228,14 +225,14 @@ def r5(ctx):
                 "asks=Some,bids=Some": "Option::Some{0: %s(%s%s, %s%s)}" % (leaf, bid, sfx, ask, sfx)}
         ctx.check("OrderBook::" + fn, tab == want, "uses the first (best) level of each side; one-sided books report that side's price",
                   got=tab, want=want, key="table")
-    m = ctx.body(ctx.find(path="barter_data::books::mid_price"))
+    m = ctx.ibody(ctx.find(path="barter_data::books::mid_price"))
     b_, a_ = sympy.Symbol("best_bid_price"), sympy.Symbol("best_ask_price")
     try:
         ok = formula.equal(formula.to_sympy(ctx.facts, m.return_term()), (b_ + a_) / 2)
     except formula.NotAFormula:
         ok = False
     ctx.check("books::mid_price", ok, "(bid + ask) / 2", got=render(m.return_term()), key="formula")
-    v = ctx.body(ctx.find(path="barter_data::books::volume_weighted_mid_price"))
+    v = ctx.ibody(ctx.find(path="barter_data::books::volume_weighted_mid_price"))
     bp, ba, ap, aa = sympy.symbols("best_bid.price best_bid.amount best_ask.price best_ask.amount")
     try:
         ok = formula.equal(formula.to_sympy(ctx.facts, v.return_term()), (bp * aa + ap * ba) / (ba + aa))
@@ -243,7 +240,7 @@ def r5(ctx):
         ok = False
     ctx.check("books::volume_weighted_mid_price", ok, "(bid.price*ask.amount + ask.price*bid.amount) / (bid.amount + ask.amount)",
               got=render(v.return_term()), key="formula")
-    s = ctx.fbody(name="snapshot", self_adt=OB, trait="")
+    s = ctx.fibody(name="snapshot", self_adt=OB, trait="")
     rt = s.return_term()
     f = {k: render(x) for k, x in zip(rt[2], rt[3])} if rt[0] == "agg" else {}
     want = {"sequence": "self.sequence", "time_engine": "self.time_engine",
@@ -257,7 +254,7 @@ def r6(ctx):
     ds = [d for d in ctx.facts.bodies if d.startswith("barter_data::books::manager::OrderBookL2Manager::") and d.endswith("::run::{closure#0}")]
     if len(ds) != 1:
         raise Exception("OrderBookL2Manager::run coroutine not found")
-    b = ctx.body(ds[0])
+    b = ctx.ibody(ds[0])
     calls = b.real_calls()
     find = [(bi, t, tm) for bi, t, tm in calls if tm[1].endswith("OrderBookMap::find")]
     upd = [(bi, t, tm) for bi, t, tm in calls if mir.short(tm[1]) == "OrderBook::update"]
